@@ -105,7 +105,7 @@ pub struct BatchOutcome {
 }
 
 pub const CHUNK: u64 = 16384;
-pub const WATCHDOG_SECS: u64 = 60;
+pub const WATCHDOG_SECS: u64 = 600;
 pub static WATCHDOG_OVERRIDE: AtomicU64 = AtomicU64::new(0);
 
 pub fn watchdog_secs() -> u64 {
